@@ -488,6 +488,53 @@ pub mod r2 {
 }
 """ % {"U": U}
 
+ATTRS = """// diplomat helper attributes in every placement the AST reads them from: all of them must be gone from the expansion
+#[diplomat::bridge]
+#[diplomat::abi_rename = "at_{0}"]
+#[diplomat::attr(auto, namespace = "atns")]
+pub mod ffi {
+    #[diplomat::opaque]
+    #[diplomat::rust_link(core::option::Option, Enum)]
+    #[diplomat::attr(js, rename = "AtOpJs")]
+    #[diplomat::demo(external)]
+    pub struct AtOp;
+    #[diplomat::attr(cpp, rename = "AtStCpp")]
+    pub struct AtSt {
+        /// documented field
+        pub a: u8,
+        #[diplomat::rust_link(core::option::Option, Enum)]
+        pub b: i32,
+    }
+    #[diplomat::abi_rename = "en_{0}"]
+    pub enum AtEn {
+        #[diplomat::attr(*, rename = "Uno")]
+        A,
+        #[diplomat::rust_link(core::option::Option::None, EnumVariant)]
+        B,
+    }
+    #[diplomat::abi_rename = "impl_{0}"]
+    #[diplomat::attr(dart, rename = "d_{0}")]
+    impl AtOp {
+        #[diplomat::attr(auto, constructor)]
+        #[diplomat::demo(default_constructor)]
+        pub fn new() -> Box<AtOp> { Box::new(AtOp) }
+        #[diplomat::rust_link(core::option::Option::is_some, FnInEnum)]
+        pub fn recv(#[diplomat::demo(input(label = "receiver"))] &self) -> u8 { 0 }
+        pub fn recv_mut(#[diplomat::demo(input(label = "receiver"))] &mut self, #[diplomat::demo(input(label = "count"))] n: u8) -> u8 { n }
+        #[diplomat::attr(cpp, rename = "cpp_param")]
+        pub fn param(&self, #[diplomat::demo(input(label = "x", default_value = "3"))] x: i32, #[diplomat::demo(input(label = "s"))] s: AtSt) -> AtEn %(U)s
+        #[diplomat::abi_rename = "m_{0}"]
+        pub fn en(&self, #[diplomat::demo(input(label = "e"))] e: AtEn) -> AtSt %(U)s
+    }
+    impl AtSt {
+        pub fn by_value(#[diplomat::demo(input(label = "self"))] self) -> u8 { 0 }
+    }
+    impl AtEn {
+        pub fn by_value(#[diplomat::demo(input(label = "self"))] self, #[diplomat::demo(input(label = "o"))] o: &AtOp) -> AtEn { self }
+    }
+}
+""" % {"U": U}
+
 # callbacks: every parameter kind and every return kind in a type of its own (file name = construct)
 CB_PARAM_KINDS = [("none", ""), ("prim", "u8"), ("prims", "i32, f64, bool"), ("char", "DiplomatChar"), ("enum", "CbEn"), ("struct", "CbSt"),
                   ("opaque-ref", "&CbOp"), ("opaque-mut", "&mut CbOp"), ("opt-opaque-ref", "Option<&CbOp>"), ("str", "&str"), ("str16", "&DiplomatStr16"),
@@ -538,7 +585,7 @@ def cb_source(items, sfx=""):
     return "#[diplomat::bridge]\npub mod ffi {\n" + CB_PRELUDE % {"x": sfx} + "".join(s for (_n, _l, s) in items) + "}\n"
 
 
-SHAPE_GROUPS = {"cyc": CYC, "multi": MULTI, "ns": NS, "ren": REN}
+SHAPE_GROUPS = {"attrs": ATTRS, "cyc": CYC, "multi": MULTI, "ns": NS, "ren": REN}
 # `use crate::ma::..` in MULTI is resolved by rustc through these re-exports at the crate root (the tool sees multi.rs as root)
 SHAPE_ROOT_EXTRA = "pub use crate::multi::ma;\npub use crate::multi::mb;\n"
 
